@@ -98,16 +98,30 @@ _ADDR = re.compile(r" at 0x[0-9a-fA-F]+")
 
 def _env(kind: str, templates: dict[str, str]):  # noqa: ANN202
     """kind = std | shopify, optionally followed by -minus / -tilde (the environment's
-    default_trim; with a non-default setting an explicit `+` marker is significant)."""
+    default_trim; with a non-default setting an explicit `+` marker is significant), then
+    +esc (auto_escape=True), +strict (StrictUndefined) and/or +trim1 (an Environment subclass
+    whose documented trim() hook is not idempotent)."""
     from liquid2 import DictLoader
     from liquid2 import Environment
     from liquid2 import WhitespaceControl
     from liquid2.shopify import Environment as ShopifyEnvironment
 
+    kind, *flags = kind.split("+")
     base, _, trim = kind.partition("-")
     cls = ShopifyEnvironment if base == "shopify" else Environment
     dt = {"minus": WhitespaceControl.MINUS, "tilde": WhitespaceControl.TILDE}.get(trim, WhitespaceControl.PLUS)
-    return cls(loader=DictLoader(templates), default_trim=dt)
+    kw: dict[str, Any] = {}
+    if "trim1" in flags:
+        from .. import c12_state
+
+        cls = c12_state.OneStepTrimShopifyEnvironment if base == "shopify" else c12_state.OneStepTrimEnvironment
+    if "esc" in flags:
+        kw["auto_escape"] = True  # string literals become safe Markup, everything else is escaped
+    if "strict" in flags:
+        from liquid2 import StrictUndefined
+
+        kw["undefined"] = StrictUndefined
+    return cls(loader=DictLoader(templates), default_trim=dt, **kw)
 
 
 _DATA_BLOBS: dict[int, tuple[Any, bytes]] = {}
@@ -1098,9 +1112,9 @@ def _corpus(spec: dict[str, Any], ctx: Ctx) -> None:
         datas = [data]
         if data:
             datas += [{}, _perturb(data)]
-        kinds = ["std", "shopify", "std-minus"] if thorough else ["std"]
+        kinds = ["std", "shopify", "std-minus", "std+esc", "std+strict"] if thorough else ["std", "std+esc"]
         for kind in kinds:
-            mon.check(Case(kind, src, tpls, "", datas), do_pickle=(kind == "std"), label="corpus")
+            mon.check(Case(kind, src, tpls, "", datas), do_pickle=(kind == "std"), label="corpus" if kind == "std" else "corpus-config")
             for name in tpls:
                 mon.check(Case(kind, src, tpls, name, datas), do_pickle=False, label="corpus-partial")
         ctx.count("corpus_cases")
@@ -1156,10 +1170,18 @@ def _units(spec: dict[str, Any], ctx: Ctx) -> None:
         if ui % 8 == 7:
             kind = "shopify-tilde" if shop else "std-minus"
         kinds = [kind]
+        # configuration axis: auto-escaping (where a string literal, a template string and a
+        # variable are three different things) and strict undefined
+        if "${" in src or "<" in src or "&" in src or lab == "htmlts" or ui % 5 == 1:
+            kinds.append(kind + "+esc")
+        if ui % 9 == 4 or lab == "htmlts":
+            kinds.append(kind + "+strict" if ui % 2 else kind + "+esc+strict")
+        if lab in ("wc", "branch") or "raw" in src or ui % 11 == 3:
+            kinds.append("shopify+trim1" if ui % 3 else "shopify-tilde+trim1")
         if lab in ("wc", "branch"):
             # whitespace-control units also under non-default default_trim settings, where an
             # explicit `+` is not the same as no marker
-            kinds = ["shopify", "shopify-minus", "shopify-tilde"]
+            kinds = ["shopify", "shopify-minus", "shopify-tilde", "shopify+trim1" if ui % 2 else "shopify-minus+trim1"]
         for kind in kinds:
             r = mon.check(Case(kind, src, G.PARTIALS, "", datas), do_pickle=(kind == kinds[0]),
                           feats=(f"{lab}:{feat}",), label="unit-" + lab)
@@ -1212,7 +1234,8 @@ def _compose(spec: dict[str, Any], ctx: Ctx) -> None:
         depth = rng.choice([1, 2, 2, 3, 3]) if spec["tier"] == "quick" else rng.choice([1, 2, 3, 3, 4])
         src, tpls, feats = G.random_case(rng, shopify, max_depth=depth)
         datas = G.datasets(rng)
-        kind = ("shopify" if shopify else "std") + rng.choice(["", "", "", "", "", "-minus", "-tilde"])
+        kind = ("shopify" if shopify else "std") + rng.choice(["", "", "", "", "", "-minus", "-tilde"]) \
+            + rng.choice(["", "", "", "+esc", "+esc", "+strict", "+esc+strict", "+trim1", "+trim1+esc"])
         ctx.seen("environments", kind)
         r = mon.check(Case(kind, src, tpls, "", datas), do_pickle=True, feats=feats, label="compose")
         if r == "invalid":
